@@ -485,8 +485,14 @@ where
             CacheError::SendError(format!("fail to send clear signal to working thread {}", e))
         })?;
 
+        #[cfg(transparencies_stretto_verif)]
+        crate::verif::yield_point("clear.after_signal");
         self.policy.clear();
+        #[cfg(transparencies_stretto_verif)]
+        crate::verif::yield_point("clear.after_policy_clear");
         self.store.clear();
+        #[cfg(transparencies_stretto_verif)]
+        crate::verif::yield_point("clear.after_store_clear");
         self.metrics.clear();
 
         Ok(())
@@ -588,6 +594,8 @@ where
         if let Some(prev) = prev {
             self.callback.on_exit(Some(prev.value.into_inner()));
         }
+        #[cfg(transparencies_stretto_verif)]
+        crate::verif::yield_point("remove.after_store_remove");
         // If we've set an item, it would be applied slightly later.
         // So we must push the same item to `setBuf` with the deletion flag.
         // This ensures that if a set is followed by a delete, it will be
@@ -605,10 +613,14 @@ where
         }
 
         self.clear().await?;
+        #[cfg(transparencies_stretto_verif)]
+        crate::verif::yield_point("close.after_clear");
         // Block until processItems thread is returned
         self.stop_tx.send(()).await.map_err(|e| {
             CacheError::SendError(format!("fail to send stop signal to working thread, {}", e))
         })?;
+        #[cfg(transparencies_stretto_verif)]
+        crate::verif::yield_point("close.after_stop");
         self.policy.close().await?;
         self.is_closed.store(true, Ordering::SeqCst);
         Ok(())
@@ -628,6 +640,8 @@ where
         }
 
         if let Some((index, item)) = self.try_update(key, val, cost, ttl, only_update)? {
+            #[cfg(transparencies_stretto_verif)]
+            crate::verif::yield_point("insert.after_store_update");
             let is_update = item.is_update();
             select! {
                 res = self.insert_buf_tx.send(item).fuse() => res.map_or_else(|_| {
